@@ -375,6 +375,19 @@ def c11(tier):
         tagged.append(" " + "_" * wd + "\n|" + tg.ljust(wd) + "|\n|" + "_" * wd + "|")
         # a tag or a word next to lines that carry markers (bullets, arrowheads): their extent scales like everything else
         tagged.append(gen.box(len(tg) + 2, 1, "sharp", tg) + r.choice(["o--", "*--o", "-->", " o-- " + tg, "\no--  " + tg + "\n*--> ab"]))
+    # a tag at the far right / far left of every interior row of a catalogue circle (its extent against the circle's box)
+    cat11 = _json.load(open(os.path.join(common.ROOT, "verifpy", "catalogue.json"), encoding="utf-8"))
+    for idx in range(6, 22):
+        D = cat11[idx]
+        wmax = max(len(x) for x in D)
+        for y in range(len(D)):
+            row = D[y].ljust(wmax)
+            for tg in ("{a}", "{ab}"):
+                for x0 in (wmax - len(tg), wmax - len(tg) - 1, 0, 1):
+                    if 0 <= x0 and all(ch == " " for ch in row[x0:x0 + len(tg)]):
+                        rows_ = [x.ljust(wmax) for x in D]
+                        rows_[y] = row[:x0] + tg + row[x0 + len(tg):]
+                        tagged.append("\n".join(x.rstrip() for x in rows_))
     # large drawings: the canvas grows without bound (hundreds of rows / columns at the largest scales)
     big = ["\n".join(["|  |"] * r.randint(230, 420)), "+" + "-" * r.randint(450, 830) + "+", "\n".join("o-- x%d" % i for i in range(250))]
     groups = []
@@ -719,6 +732,14 @@ def c09(tier):
                 lower[r.randrange(L + 2)] = bot
             corpus.append(" " * r.randint(0, 1) + top * L + "\n" + "".join(lower).rstrip())
     corpus += [gen.hatch_grid(r) for _ in range(12)] + [gen.comb_grid(r) for _ in range(12)]
+    # strokes that run into a glyph drawing two separate fragments (crosses, double lines): the glyph's cell belongs to two
+    # contact groups
+    for g in "╳╪╫╬═║┼X#+":
+        for L in (1, 2, 3, 5):
+            corpus.append("\\--\n" + "\n".join(" " * (i + 1) + "\\" for i in range(L - 1)) + ("\n" if L > 1 else "") + " " * L + g)
+            corpus.append("|--\n" + "|\n" * (L - 1) + g)
+            corpus.append("-" * L + g + "-" * L + "\n" + " " * L + "|")
+            corpus.append(" " * L + "/\n" + "\n".join(" " * (L - 1 - i) + "/" for i in range(L - 1)) + ("\n" if L > 1 else "") + g)
     # large structured inputs: many groups open between two pieces of one run
     big = []
     for i in range(12 if tier == "quick" else 200):
